@@ -191,8 +191,12 @@ def rule_P_TABLE(ctx, scopes, floor_sites):
         ent = table.get(key)
         # a slice site `env[a..]` / `env[..b]` whose bound B-LEN PROVES on the current code is discharged by that proof: no reviewed reference
         # is needed (and none can go stale when the code around it is restructured)
+        # ... but only where the reference cannot be expected to match: in a function that contains spliced helper code (lib/inline.py).
+        # Elsewhere the reviewed operands stay binding -- they also pin WHICH value a border is computed from, and a wrong-but-in-range
+        # border is a correctness defect that B-LEN's range proof does not see (automut regression run: three such mutants)
         pr = blen_sites.get((p, bi))
-        proved = bool(pr) and pr[0] and pr[1] in ("from", "to") and "ops::Index::index" in key
+        spliced = any(bl.get("inlined") for bl in b["blocks"])
+        proved = spliced and bool(pr) and pr[0] and pr[1] in ("from", "to") and "ops::Index::index" in key
         if ent is None:
             if proved:
                 ctx.ob("P-GUARD", key + " (proved by B-LEN)", True, "", site)
@@ -248,7 +252,7 @@ def _renumbering(f, table, all_sites):
     syms = {}
     for stem, sites in groups.items():
         ents = {k: e for k, e in table.items() if k.rsplit(" #", 1)[0] == stem}
-        if not ents or len(sites) > len(ents) or len(sites) > 8:
+        if not ents or len(sites) != len(ents) or len(sites) > 8:          # a PERMUTATION of the numbering: no site may appear or vanish
             continue
         facts_ = []
         for key, p, bi, t in sites:
@@ -604,8 +608,8 @@ def rule_R_BORDER(ctx, floor=10):
     for stem, ss in grp.items():
         ents = {k: e for k, e in table.items() if k.rsplit(" #", 1)[0] == stem}
         fits = lambda o, l, e: e["ops"] == o and all(g in l for g in e["need"])
-        if not ents or len(ss) > len(ents) or len(ss) > 8 or all(k in ents and fits(o, l, ents[k]) for k, o, l in ss):
-            continue
+        if not ents or len(ss) != len(ents) or len(ss) > 8 or all(k in ents and fits(o, l, ents[k]) for k, o, l in ss):
+            continue          # (a permutation of the numbering only: no returned border may appear or vanish)
         cand = [[ek for ek, e in ents.items() if fits(o, l, e)] for k, o, l in ss]
 
         def assign(i, used):
@@ -626,7 +630,8 @@ def rule_R_BORDER(ctx, floor=10):
         ent = table.get(key)
         site = "%s:%s" % (b["span"]["file"], st["line"])
         # B-LEN proves `every returned border <= len(env)` for this function on the current code: the reviewed expression is not needed
-        proved = post_ok.get(b["path"]) is True
+        # (only for functions that contain spliced helper code, see P-GUARD: elsewhere the reviewed expression also pins the VALUE of the border)
+        proved = post_ok.get(b["path"]) is True and any(bl.get("inlined") for bl in b["blocks"])
         if ent is None:
             ctx.ob("R-BORDER", key + (" (post proved by B-LEN)" if proved else ""), proved, "new returned border, not in the reviewed table", site)
             continue
